@@ -104,6 +104,9 @@ type Node struct {
 	ScanChain map[string]ScanStep
 	// BadReplies, when non-nil, maps a lower-case command name to raw bytes sent instead of the real reply.
 	BadReplies map[string][]byte
+	// RefuseOnce maps a lower-case command name to raw bytes with which the next such command is answered without
+	// being executed (e.g. -CLUSTERDOWN while the node has lost sight of the majority); the entry is used once.
+	RefuseOnce map[string][]byte
 }
 
 // ScanStep is one scripted SCAN answer.
@@ -340,8 +343,20 @@ func (n *Node) serve(conn *vnet.VConn, id int) {
 		wasAsking := asking
 		var reply resp.Value
 		var redirect bool
-		n.C.Locked(func() { reply, redirect = n.exec(args, &asking, &readonly) })
+		var refused []byte
+		if n.RefuseOnce != nil && len(sargs) > 0 {
+			if b, ok := n.RefuseOnce[strings.ToLower(sargs[0])]; ok {
+				refused = b
+				delete(n.RefuseOnce, strings.ToLower(sargs[0]))
+			}
+		}
+		if refused == nil {
+			n.C.Locked(func() { reply, redirect = n.exec(args, &asking, &readonly) })
+		}
 		raw := resp.Encode(reply)
+		if refused != nil {
+			raw = refused
+		}
 		if n.BadReplies != nil && len(sargs) > 0 {
 			if b, ok := n.BadReplies[strings.ToLower(sargs[0])]; ok {
 				raw = b
